@@ -121,11 +121,56 @@ def r11(text, args, label):
     return text
 
 
+def _balanced(g):
+    depth = 0
+    for ch in mask(g):
+        if ch in '([{':
+            depth += 1
+        elif ch in ')]}':
+            depth -= 1
+            if depth < 0:
+                return False
+    return depth == 0
+
+
 def r12(text, args, label):
-    raise LostAnchor('R12 must be used through //@subst')
+    """args = [old, new].  old: literal text; runs of blanks match any whitespace (also none next to
+    punctuation); `...` matches the shortest bracket-balanced text.  Exactly one match required.
+    In <new>, $1 $2 .. stand for the wildcard texts."""
+    old, new = args
+    parts = []
+    for part in old.split('...'):
+        toks = part.split()
+        parts.append(re.compile(r'\s*'.join(re.escape(t) for t in toks)))
+    hits = []
+    for m0 in parts[0].finditer(text):
+        pos = m0.end()
+        groups = []
+        ok = True
+        for rx in parts[1:]:
+            found = None
+            for p2 in range(pos, len(text) + 1):
+                mm = rx.match(text, p2)
+                if mm and _balanced(text[pos:p2]):
+                    found = mm
+                    break
+            if not found:
+                ok = False
+                break
+            groups.append(text[pos:found.start()].strip())
+            pos = found.end()
+        if ok:
+            hits.append((m0.start(), pos, groups))
+    if len(hits) != 1:
+        raise LostAnchor('%s: R12 `%s` matched %d times' % (label, old, len(hits)))
+    a, b, groups = hits[0]
+    out = new
+    for k, g in enumerate(groups):
+        out = out.replace('$%d' % (k + 1), g)
+    return text[:a] + out + text[b:]
 
 
-RULES = {'R1': r1, 'R2': r2, 'R3': r3, 'R11': r11}
+RULES = {'R1': r1, 'R2': r2, 'R3': r3, 'R11': r11, 'R12': r12}
 
 
 def apply(name, text, args, label):
